@@ -55,6 +55,14 @@ CLAIMED.update({
             'DESIGN.md §3 C03'),
 })
 
+CLAIMED.update({
+    'C07': ('model_checking',
+            'each fol.Context operation run for real on seeded predicates; z3 decides, for all assignments of the remaining identifiers, that the exported result equals the set-level operation on the exported operand (let values enumerated over the bit range, quantifiers by finite expansion, support by dependence queries, pick_iter completeness as a solver query); CrossHair confirms the integer<->bit kernels over all partial bit lists',
+            'Bounded solver check per (predicate, operation): substitution, renaming, composition, quantification, support, enumeration/count/pick, cubes, Boolean combination and copying between contexts, on both back ends, over Boolean / unsigned / signed / all-negative / singleton identifiers.',
+            'Trusted: z3, CrossHair, dd node accessors, link. Bounds: identifiers of 1-4 bits, predicates of depth <= 2, 4 declarations; CrossHair kernels for bit lists of length <= 4 and |values| <= 70. For care_vars that are a strict subset of the support the yielded (partial) assignments are read as disjoint cubes.',
+            'DESIGN.md §3 C07'),
+})
+
 NOT_APPLICABLE = {
     'C16': 'Parser/precedence/round-trip: PLY regex lexer + table-driven LALR driver over token sequences; no arithmetic or bit-level state for a solver to range over. CrossHair on lexyacc.Parser.parse with symbolic strings (len <= 3) answers "Unable to meet precondition" after 90 s. See DESIGN.md §5.',
 }
@@ -93,7 +101,7 @@ def main():
                    source_commits=[], add_only=True),
         engines=[dict(name='z3', path='/verif/.venv (z3-solver 5.1.0 wheel)', serves_properties=sorted(CLAIMED),
                       kind_free_text='SMT solver deciding exported BDDs / bitblasted circuits / unrolled references'),
-                 dict(name='crosshair', path='/verif/.venv (crosshair-tool 0.0.110)', serves_properties=[],
+                 dict(name='crosshair', path='/verif/.venv (crosshair-tool 0.0.110)', serves_properties=[p for p in ('C07', 'C13', 'C18', 'C19') if p in CLAIMED],
                       kind_free_text='symbolic execution of pure-Python kernels')],
         checks=checks,
         notes='Solver-based checking of the real code; see DESIGN.md. Exit codes: 0 held, 1 VIOLATION (replayed on the real code), 2 inconclusive/harness error (never reported as success).',
